@@ -369,6 +369,33 @@ func c19Scenario(spec *c19Spec) *Scenario {
 				m.S.WaitIdle()
 				sa.Close()
 				m.Sleep(run)
+			case "heartbeat-stream":
+				// steady probing, many probes per round trip: every answer is the answer to a probe
+				// this side sent and yields a sample
+				hl := &hbLog{}
+				m.As[0].lock.Lock()
+				m.As[0].log = hl
+				m.As[0].lock.Unlock()
+				for i := 0; i < 160; i++ {
+					m.As[0].ActiveHeartbeat()
+					m.Sleep(5 * time.Millisecond)
+				}
+				srtt := m.As[0].SRTT()
+				acks := 0
+				for _, ev := range m.W.events {
+					if ev.Kind == "deliver" && ev.From == 1 && ev.Pkt.dec != nil {
+						for _, c := range ev.Pkt.dec.Chunks {
+							if c.Typ == wHBACK {
+								acks++
+							}
+						}
+					}
+				}
+				if hl.unsolicited > 0 || srtt == 0 {
+					m.Failf("heartbeat.rtt", "160 on-demand heartbeats 5 ms apart on a link with a round trip of %v: %d answers have arrived, %d of them were dismissed as unsolicited, SRTT=%v", m.W.delay[0]+m.W.delay[1], acks, hl.unsolicited, srtt)
+				}
+				m.Sleep(2 * time.Second)
+				m.Observe("acks=%d unsolicited=%d", acks, hl.unsolicited)
 			case "heartbeat", "heartbeat0", "heartbeat-pending":
 				if spec.kind == "heartbeat-pending" {
 					// the peer has data it cannot get acknowledged and has called Shutdown: it is in
@@ -847,6 +874,7 @@ func c19EndToEnd(j *Job) {
 				j.Explore(fmt.Sprintf("E/%s/rtomax%v/il%v", kind, rm, il), c19Scenario(&c19Spec{kind: kind, rtoMax: rm, il: il}), Budget{}, nil)
 			}
 		}
+		j.Explore(fmt.Sprintf("E/heartbeat-stream/il%v", il), c19Scenario(&c19Spec{kind: "heartbeat-stream", rtoMax: 4000, il: il, delay: 100 * time.Millisecond}), Budget{}, nil)
 		for _, kind := range []string{"heartbeat", "heartbeat0", "heartbeat-pending"} {
 			for _, dl := range []time.Duration{0, 30 * time.Millisecond} {
 				if kind != "heartbeat" && dl != 0 {
@@ -959,6 +987,18 @@ func c19EndToEnd(j *Job) {
 		if j.capped() {
 			return
 		}
+	}
+}
+
+// hbLog counts the HEARTBEAT-ACKs the library dismisses as not answering any of its probes.
+type hbLog struct {
+	nopLogger
+	unsolicited int
+}
+
+func (l *hbLog) Debugf(f string, _ ...any) {
+	if strings.Contains(f, "unsolicited heartbeat ack") {
+		l.unsolicited++
 	}
 }
 
